@@ -2851,6 +2851,13 @@ def transform_compressible(items, constants, labels):
             new_items.append(item)
             continue
 
+        # the JALR of an AUIPC pair carries the low part of a pc-relative offset
+        # that isn't final yet: it must keep its immediate field
+        if getattr(item, 'is_auipc_jump', False):
+            position += item.size()
+            new_items.append(item)
+            continue
+
         # check if any set of criteria is all true for this item
         compressed = None
         for name, preds in criteria.items():
@@ -3137,14 +3144,13 @@ def resolve_immediates(items, constants, labels):
 
         # resolve the immediate field
         env = ChainMap(constants, labels)
-        imm = item.imm.eval(position, env, item.line)
 
-        # account for AUIPC "PC based on previous inst" nuance
+        # account for AUIPC "PC based on previous inst" nuance: the low part
+        # must be split from the same offset the (4-byte) AUIPC used for %hi
         if hasattr(item, 'is_auipc_jump') and item.is_auipc_jump:
-            if isinstance(item, CompressedInstruction):
-                imm += 2
-            else:
-                imm += 4
+            imm = item.imm.eval(position - 4, env, item.line)
+        else:
+            imm = item.imm.eval(position, env, item.line)
 
         d['imm'] = imm
 
